@@ -260,3 +260,50 @@ func recordOf(tb *TermBuilder, t *Term) (*Term, bool) {
 }
 
 func typesPointer(t types.Type) types.Type { return types.NewPointer(t) }
+
+// everyElement: site s sits in a loop of its own frame and is executed for
+// every element the loop visits: the loop ends only through its header (on
+// exhaustion; an exit into a block that only panics aborts the transaction and
+// does not count) and no feasible edge goes round the site within an iteration,
+// unless the state on that edge entails one of the literals in allowed.
+func everyElement(a *Analysis, s *Site, allowed func(st *CNF) bool) (bool, string) {
+	blk := s.Instr.Block()
+	hdr := innermostLoop(blk)
+	if hdr == nil {
+		return false, "the operation is not in a loop"
+	}
+	for _, e := range loopExits(hdr) {
+		if e.from == hdr {
+			continue
+		}
+		if _, isPanic := e.to.Instrs[len(e.to.Instrs)-1].(*ssa.Panic); isPanic {
+			continue
+		}
+		if a.edgeState(s.Ctx, e.from, e.to) == nil {
+			continue // infeasible
+		}
+		return false, "the loop can be left before every element was visited (at " + blockPos(a.w, e.from) + ")"
+	}
+	for _, sk := range a.skipEdges(s.Ctx, blk, func(b *ssa.BasicBlock) bool { return b == hdr }) {
+		if allowed != nil && allowed(sk.St) {
+			continue
+		}
+		return false, "an iteration can go round the operation (at " + blockPos(a.w, sk.From) + ")"
+	}
+	return true, ""
+}
+
+// blockPos: a source position for the end of block b (the last instruction that has one).
+func blockPos(w *World, b *ssa.BasicBlock) string {
+	for i := len(b.Instrs) - 1; i >= 0; i-- {
+		if p := b.Instrs[i].Pos(); p.IsValid() {
+			return w.pos(p)
+		}
+		if v, ok := b.Instrs[i].(*ssa.If); ok {
+			if p := v.Cond.Pos(); p.IsValid() {
+				return w.pos(p)
+			}
+		}
+	}
+	return "?"
+}
